@@ -267,3 +267,95 @@ def judge_rule_stream(ctx: Ctx, stream: Stream, results, aspect: str, whole_spac
                 ctx.broken.append(rec)
             else:
                 ctx.drift.append(rec)
+
+
+# --------------------------------------------------------------------------------------- re-used rule objects
+def impl_reuse(case) -> str:
+    """ONE rule object built from the ops, applied to a first architecture and then to the case's architecture; the
+    canonical outcome of the SECOND application (same format as gen.impl_rule)."""
+    import warnings
+
+    from .impl import RULE_OPS, Rule, err_kind, make_graph, parse_message
+
+    g1 = make_graph(case["nodes1"], case["imps1"])
+    g2 = make_graph(case["nodes"], case["imps"])
+    r = Rule()
+    for i, (op, arg) in enumerate(case["ops"]):
+        try:
+            with warnings.catch_warnings():
+                warnings.simplefilter("ignore")
+                r = RULE_OPS[op](r, arg)
+        except Exception as e:  # noqa: BLE001
+            return f"ERR:{err_kind(e)} I={i}"
+    n = len(case["ops"])
+    try:
+        r.assert_applies(g1)
+    except Exception:  # noqa: BLE001
+        pass
+    try:
+        r.assert_applies(g2)
+    except AssertionError as e:
+        return "FAIL:" + ";".join(parse_message(str(e))) + f" I={n}"
+    except Exception as e:  # noqa: BLE001
+        return f"ERR:{err_kind(e)} I={n}"
+    return f"PASS I={n}"
+
+
+def reuse_cases(rng, n, comps=gen.IDENT_ADVERSARIAL):
+    """rules with a regex (or name) specification; a first architecture that differs from the second one in the modules
+    the regex matches (a matching leaf module removed / added) and in its imports"""
+    import re as _re
+
+    out = []
+    for c in random_cases(rng, 3 * n, comps=comps, strict=False, max_nodes=12, max_imports=10):
+        if len(out) >= n:
+            break
+        nodes, imps = c["nodes"], c["imps"]
+        positions = [i for i, (op, arg) in enumerate(c["ops"]) if isinstance(arg, list)]
+        if not positions:
+            continue
+        ops = list(c["ops"])
+        tab = None
+        if rng.random() < 0.8:
+            i = rng.choice(positions)
+            base = rng.choice(ops[i][1])
+            pat = rng.choice([_re.escape(base) + r"(\..*)?$", _re.escape(base.split(".")[0]) + r"\..*", _re.escape(base[: max(1, len(base) - 1)]) + ".*"])
+            ops[i] = ("match", pat)
+            tab = [(pat, [m for m in nodes if _re.match(pat, m)])]
+            matched = set(tab[0][1])
+        else:
+            matched = set(nodes)
+        # first architecture: drop some matching leaf modules (and their imports), or some imports
+        leaves = [m for m in nodes if m in matched and not any(x.startswith(m + ".") for x in nodes)]
+        drop = set(rng.sample(leaves, min(len(leaves), rng.randint(0, 2))))
+        nodes1 = [m for m in nodes if m not in drop]
+        if len(nodes1) < 2:
+            continue
+        imps1 = [e for e in imps if e[0] not in drop and e[1] not in drop]
+        if rng.random() < 0.5 and imps1:
+            imps1 = imps1[: len(imps1) // 2]
+        case = {"nodes": nodes, "imps": imps, "lim": None, "ops": ops, "spec": None, "nodes1": nodes1, "imps1": imps1}
+        if tab:
+            case["mtab"] = tab
+        out.append(case)
+    return out
+
+
+def reuse_stream(ctx: Ctx, stream: Stream, n: int):
+    """the outcome of a rule must not depend on which architectures the same rule object was applied to before"""
+    cases = reuse_cases(ctx.rng("reuse"), n)
+    reused = pmap(impl_reuse, cases, ctx.jobs)
+    fresh = pmap(gen.impl_rule, cases, ctx.jobs)
+    ans = run_driver([gen.rule_line(c) for c in cases])
+    for c, a, b, an in zip(cases, reused, fresh, ans):
+        stream.evaluations += 1
+        stream.count("reuse:" + a.split(":")[0].split(" ")[0])
+        if c["nodes1"] != c["nodes"]:
+            stream.nontrivial.add(digest((c["nodes"], c["imps"], c["ops"], c["nodes1"])))
+        if a != b:
+            ctx.violations.append({"kind": "property-violation",
+                                   "what": "a rule object that was applied to another architecture before gives a different outcome than a fresh rule object",
+                                   "line": gen.rule_line(c), "first_architecture": {"nodes": c["nodes1"], "imports": c["imps1"]},
+                                   "reused": a, "fresh": b, "model": parse_answer(an).get("M")})
+            if len(ctx.violations) >= 3:
+                return
